@@ -282,8 +282,24 @@ func (sc *srvScen) tableHistory(n int) {
 		case k < 18:
 			if len(pool) > 0 {
 				kk := pool[r.Intn(len(pool))]
-				sc.failPing(kk.addr, kk.id)
-				sc.r.hist("table-event/ping-timeout")
+				if r.Intn(2) == 0 {
+					sc.failPing(kk.addr, kk.id)
+					sc.r.hist("table-event/ping-timeout")
+				} else {
+					// the questionable-node ping is answered: under the pinged ID, another ID, the node's own or the zero ID
+					rid := kk.id
+					switch r.Intn(6) {
+					case 0, 1:
+						rid = sc.idInBucket(buckets[r.Intn(len(buckets))])
+					case 2:
+						rid = sc.root
+					case 3:
+						rid = [20]byte{}
+					}
+					sc.respondingNodeVia(kk.addr, rid, false, &kk.id)
+					sc.checkTable(sc.s.VerifTableSnapshot())
+					sc.r.hist(fmt.Sprintf("table-event/ping-answered/same-id=%v", rid == kk.id))
+				}
 			}
 		default:
 			sc.advance([]time.Duration{time.Minute, 5 * time.Minute, 10 * time.Minute, 14 * time.Minute, 16 * time.Minute, 20 * time.Minute}[r.Intn(6)])
@@ -322,6 +338,11 @@ func (sc *srvScen) nodeListQueries(n int) {
 		switch r.Intn(6) {
 		case 0:
 			sc.send(addr, sc.mkQuery("ping", id, id)) // never responded
+			if r.Intn(2) == 0 {
+				// ... and it sends a response nobody asked for (any transaction ID): still has not answered a query of ours
+				sc.send(addr, &qspec{y: "r", t: sc.randT(), rid: &id})
+				sc.r.hist("populate/unsolicited-response-from-known-contact")
+			}
 		default:
 			sc.respondingNode(addr, id, false)
 			if r.Intn(6) == 0 {
